@@ -828,7 +828,7 @@ QUICK_OPTION_SETS = [1, 4, 8, 5, 6, 7, 9]  # indices into MAPPER_OPTION_SETS tha
 
 
 def _option_cases(rnd, tier):
-    n = 4 if tier == "quick" else 30
+    n = 4 if tier == "quick" else 20
     start = rnd.randrange(100)
     for k in range(n):
         an = OPTION_RUN_ARCHS[(start + k) % len(OPTION_RUN_ARCHS)]
@@ -845,13 +845,13 @@ def _option_cases(rnd, tier):
 # number of pmapping templates seen on the unchanged tree (only used to spread the quick sample), quick sample size)
 # and the stride of the thorough sweep (1: every template)
 TEMPLATE_SWEEPS = [
-    ("toll_below_two", "one_matvec", {"force_memory_hierarchy_order": False}, 90, 6, 1),
-    ("two_tolls_below_two", "one_matvec", {"force_memory_hierarchy_order": False}, 90, 3, 2),
-    ("loose_mid", "one_matmul", {}, 90, 3, 3),
-    ("three_levels", "one_matvec", {}, 66, 2, 3),
-    ("may_toll_below_two", "one_matvec", {"force_memory_hierarchy_order": False}, 720, 0, 16),
-    ("toll_below_two_keep", "one_matvec", {"force_memory_hierarchy_order": False}, 222, 0, 8),
-    ("toll_below_two", "one_matvec", {"force_memory_hierarchy_order": False, "_can_lower_outermost_memory": True}, 600, 0, 60),  # ~10 s per template
+    ("toll_below_two", "one_matvec", {"force_memory_hierarchy_order": False}, 90, 6, 2),
+    ("two_tolls_below_two", "one_matvec", {"force_memory_hierarchy_order": False}, 90, 3, 3),
+    ("loose_mid", "one_matmul", {}, 90, 3, 4),
+    ("three_levels", "one_matvec", {}, 66, 2, 4),
+    ("may_toll_below_two", "one_matvec", {"force_memory_hierarchy_order": False}, 720, 0, 36),
+    ("toll_below_two_keep", "one_matvec", {"force_memory_hierarchy_order": False}, 222, 0, 12),
+    ("toll_below_two", "one_matvec", {"force_memory_hierarchy_order": False, "_can_lower_outermost_memory": True}, 800, 0, 200),  # ~10 s per template
 ]
 TEMPLATE_LIMIT = 800  # a sweep stops at the first index for which nothing is returned, at the latest here
 
@@ -1153,7 +1153,7 @@ def _sweep(p, tier, n_random, n_mapper):
         f"TEMPLATE LEVEL: {st['template_calls']} single pmapping templates (spec.mapper._only_output_pmapping_with_index = i, so that a template cannot lose against a better one) of a 2x2(x2) "
         "matvec / matmul on architectures with a Toll below two Memories (Main > Mid > Toll(s) > Buf, Main > Toll > Mid > Toll > Buf), mostly with force_memory_hierarchy_order off, "
         f"returning {st['template_rows']} mappings with {st['template_reads_compared']} (Toll, tensor) read counts compared"
-        + (" (every template of one sweep, every 2nd to 60th of six more)" if tier != "quick" else " (a seeded sample of the templates)") + ". "
+        + (" (every 2nd to 4th template of four sweeps, every 12th to 200th of three more; the offset depends on the seed)" if tier != "quick" else " (a seeded sample of the templates)") + ". "
         "In EVERY mapping returned by the mapper, additionally: every Toll node of a tensor sits below all holders of that tensor that are above the Toll in the architecture and above all "
         "holders of it that are below, and a Toll declared {keep: All} has a node for every tensor that a Memory above it holds. "
         f"excluded: {st['outside_family']} (Toll, tensor) read counts whose loop nest above the holder below the Toll has an uneven tile together with another loop over the same "
@@ -1168,7 +1168,7 @@ def _sweep(p, tier, n_random, n_mapper):
                   "1-2 Tolls (one; two stacked; Toll-Memory-Toll), per-tensor holder choice and position, directions up/down/up_and_down as string or per-tensor dictionary, "
                   "values-per-action given as values_per_action / bits_per_action on the component or on the action or left at the default, bits per value 4/8/16; "
                   "mapper: 2-3 Einsum chains with bounds <= " + ("3" if tier == "quick" else "4") + ", no spatial fan-out; mapper settings from a list of 10 combinations; template level: "
-                  "single Einsum, all bounds 2, " + ("a seeded sample of 14 template indices over 4 (architecture, settings) pairs" if tier == "quick" else "every template of one (architecture, settings) pair and every 2nd to 60th of 6 more")),
+                  "single Einsum, all bounds 2, " + ("a seeded sample of 14 template indices over 4 (architecture, settings) pairs" if tier == "quick" else "every 2nd-4th template of 4 (architecture, settings) pairs and every 12th-200th of 3 more")),
         "exhaustive": True, "samples": samples,
         "assumptions": ["single-variable rank projections only (tiles are equal or disjoint, no sliding windows)", "no spatial fan-out between the Memories"],
     }
